@@ -259,6 +259,7 @@ public:
         if (dims == _view.dimensions() && _align_in_bytes == alignment)
             return;
 
+        std::size_t const old_alignment = _align_in_bytes;
         _align_in_bytes = alignment;
 
         if (_allocated_bytes >= total_allocated_size_in_bytes(dims))
@@ -270,6 +271,7 @@ public:
         }
         else
         {
+            _align_in_bytes = old_alignment; // the current view stays as it is unless the swap happens
             image tmp(dims, alignment, _alloc);
             swap(tmp);
         }
@@ -285,6 +287,7 @@ public:
         if (dims == _view.dimensions() && _align_in_bytes == alignment)
             return;
 
+        std::size_t const old_alignment = _align_in_bytes;
         _align_in_bytes = alignment;
 
         if (_allocated_bytes >= total_allocated_size_in_bytes(dims))
@@ -296,6 +299,7 @@ public:
         }
         else
         {
+            _align_in_bytes = old_alignment; // the current view stays as it is unless the swap happens
             image tmp(dims, p_in, alignment, _alloc);
             swap(tmp);
         }
@@ -312,6 +316,7 @@ public:
         if (dims == _view.dimensions() && _align_in_bytes == alignment && alloc_in == _alloc)
             return;
 
+        std::size_t const old_alignment = _align_in_bytes;
         _align_in_bytes = alignment;
 
         if (_allocated_bytes >= total_allocated_size_in_bytes(dims))
@@ -323,6 +328,7 @@ public:
         }
         else
         {
+            _align_in_bytes = old_alignment; // the current view stays as it is unless the swap happens
             image tmp(dims, alignment, alloc_in);
             swap(tmp);
         }
@@ -338,6 +344,7 @@ public:
         if (dims == _view.dimensions() && _align_in_bytes == alignment && alloc_in == _alloc)
             return;
 
+        std::size_t const old_alignment = _align_in_bytes;
         _align_in_bytes = alignment;
 
         if (_allocated_bytes >= total_allocated_size_in_bytes(dims))
@@ -349,6 +356,7 @@ public:
         }
         else
         {
+            _align_in_bytes = old_alignment; // the current view stays as it is unless the swap happens
             image tmp(dims, p_in, alignment, alloc_in);
             swap(tmp);
         }
